@@ -276,6 +276,58 @@ def run(pm, ctx):
               'WSIGNORE is an inclusive state (all token rules stay active inside parentheses)',
               pm.cls(LEXER).module.relpath, msg='WSIGNORE is no longer an inclusive lexer state',
               key='C11-R6|inclusive')
+    # ---------------- R7: two-phase example population
+    ctx.rule('C11-R7', 'examples of every namespace are registered before any example is computed '
+                       '(an example may refer to an example of an imported namespace listed later); '
+                       'parser state is reset per file')
+    pe = pm.func('stone.frontend.ir_generator.IRGenerator._populate_examples')
+
+    def top_loop(call):
+        n, top = call, None
+        while n is not None and n is not pe.node:
+            if isinstance(n, (ast.For, ast.While)):
+                top = n
+            n = getattr(n, '_parent', None)
+        return top
+    adds = [c for c in own_nodes(pe.node) if isinstance(c, ast.Call) and
+            call_name(c) == '_add_example']
+    comps = [c for c in own_nodes(pe.node) if isinstance(c, ast.Call) and
+             call_name(c) == '_compute_examples']
+    ok7 = bool(adds) and bool(comps)
+    if ok7:
+        add_loops = {id(top_loop(c)) for c in adds}
+        comp_loops = {id(top_loop(c)) for c in comps}
+        ok7 = not (add_loops & comp_loops) and None not in (top_loop(adds[0]), top_loop(comps[0])) \
+            and max(top_loop(c).end_lineno for c in adds) < min(top_loop(c).lineno for c in comps)
+    ctx.check('C11-R7', ok7, '_populate_examples registers all examples (every namespace) in a '
+              'loop that ends before the loop that computes them starts', pe.loc,
+              msg='_populate_examples computes examples inside the loop that registers them: a '
+                  'reference to an example of a namespace visited later fails, depending on the '
+                  'order of the spec files', key='C11-R7|%s|phases' % pe.qualname)
+    from .C01 import parser_state
+    parser_state(pm, ctx, 'C11-R7')
+
+    # blank and comment-only lines do not count as indentation, whatever ignorable whitespace
+    # they start with: the strip set of the indent computation covers the lexer's t_ignore set
+    ign = pm.lookup_class_attr(pm.cls(LEXER), 't_ignore')
+    ignored = set(ign.value) if isinstance(ign, ast.Constant) and isinstance(ign.value, str) \
+        else None
+    gi = pm.func(LEXER + '._get_next_line_indent_delta')
+    strips = [c for c in own_nodes(gi.node) if isinstance(c, ast.Call) and
+              isinstance(c.func, ast.Attribute) and c.func.attr in ('lstrip', 'strip')]
+    covered = True
+    for c in strips:
+        if c.args:
+            a = c.args[0]
+            covered = covered and isinstance(a, ast.Constant) and isinstance(a.value, str) and \
+                ignored is not None and ignored <= set(a.value)
+    ctx.check('C11-R6', ignored is not None and len(strips) >= 1 and covered,
+              'the indent computation strips every character of t_ignore before deciding that a '
+              'line is blank or a comment', gi.loc,
+              msg='_get_next_line_indent_delta strips %s but the lexer ignores %r: a blank or '
+                  'comment line starting with the other characters is read as a dedent'
+                  % ([unparse(c) for c in strips], sorted(ignored or ())),
+              key='C11-R6|%s|strip-set' % gi.qualname)
     for nm_, want in (('t_WSIGNORE_NEWLINE', '_check_for_indent'),
                       ('t_INITIAL_NEWLINE', '_create_tokens_for_next_line_dent'),
                       ('t_WSIGNORE_comment', '_check_for_indent'),
